@@ -489,6 +489,9 @@ fn run_pass(t: &ReteTrace, obs: &mut Obs, primary: bool) -> Result<(), Violation
     }
     if primary {
         obs.nontrivial = total_firings >= 2 && facts.len() >= 2;
+        if facts.len() >= 10 {
+            obs.count("probe.working_memory_of_ten_or_more_facts");
+        }
         obs.add("probe.firings", total_firings as u64);
     }
     clock::uninstall();
@@ -568,6 +571,14 @@ impl World for ReteWorld {
         let nops = 2 + rng.usize(9);
         let mut ops = Vec::new();
         let mut inserted = 0;
+        // one run in forty: a working memory of 10-30 facts before the history proper starts
+        let many = rng.chance(1, 40);
+        let hrange = if many { 36 } else { 6 };
+        if many {
+            for _ in 0..10 + rng.usize(21) {
+                ops.push(ROp::Insert { ty: rng.below(ntypes as u64) as u8, a: rng.range(-2, 3), b: rng.range(-2, 3) });
+            }
+        }
         for _ in 0..nops {
             let w = rng.weighted(&[if inserted < 6 { 35 } else { 0 }, 20, 10, 25, 6]);
             ops.push(match w {
@@ -575,8 +586,8 @@ impl World for ReteWorld {
                     inserted += 1;
                     ROp::Insert { ty: rng.below(ntypes as u64) as u8, a: rng.range(-2, 3), b: rng.range(-2, 3) }
                 }
-                1 => ROp::Update { h: rng.usize(6), a: rng.range(-2, 3), b: rng.range(-2, 3) },
-                2 => ROp::Retract { h: rng.usize(6) },
+                1 => ROp::Update { h: rng.usize(hrange), a: rng.range(-2, 3), b: rng.range(-2, 3) },
+                2 => ROp::Retract { h: rng.usize(hrange) },
                 3 => ROp::FireAll,
                 _ => ROp::Reset,
             });
